@@ -542,3 +542,32 @@ example : k2pRun (demoEnv (.text "2\n".toList)) ["-i--"] = some (.escaped "Attri
 example : k2pRun (demoEnv .unreadable) [] = some .silent := by decide +kernel
 
 end Cnfgen.C18
+
+namespace Cnfgen.C18
+open Cnfgen Cnfgen.Cli.ToolArgs Cnfgen.Cli.Tools
+
+/-! ## the tie of the two hand-written parsers to the source
+
+`Gen.tools` is regenerated from `cnfshuffle.py` / `kthlist2pebbling.py` on every run (tools/extract_tables.py): every
+`add_argument` with its option strings, `type=`, `action=`, default.  The option tables of the model ARE the generated
+ones (plus the `-h`, `--help` of argparse itself); a new, renamed or re-typed option breaks this proof. -/
+
+/-- what the model assumes about each option's `type=` / `action=` -/
+def argSpecOK (a : Gen.ArgSpec) : Bool :=
+  (a.dest == "output" && a.ty == "argparse.FileType('w')" && a.action == "" && a.default == "-") ||
+  (a.dest == "input" && a.ty == "argparse.FileType('r')" && a.action == "" && a.default == "-") ||
+  (a.dest == "seed" && a.ty == "str" && a.action == "store" && a.default == "None") ||
+  ((a.dest == "no_polarity_flips" || a.dest == "no_variables_permutation" || a.dest == "no_clauses_permutation") &&
+    a.ty == "" && a.action == "store_true") ||
+  (a.dest == "verbose" && a.ty == "" && a.action == "store_false" && (a.default == "" || a.default == "True"))
+
+theorem tool_parsers_match_source :
+    shuffleSpec.opts = generatedOpts "cnfshuffle" ∧ k2pSpec.opts = generatedOpts "kthlist2pebbling" ∧
+    (Gen.tools.all (fun t => (t.tool != "cnfshuffle" && t.tool != "kthlist2pebbling") ||
+      t.args.all (fun a => argSpecOK a && a.nargs == "" && a.choices.isEmpty))) = true ∧
+    shuffleSpec.noNegativeOptions = true ∧ k2pSpec.noNegativeOptions = true ∧
+    shuffleSpec.subs = none ∧ k2pSpec.subs = some transformationNames ∧ transformationNames.length = 17 ∧
+    "--" ∉ transformationNames := by
+  decide +kernel
+
+end Cnfgen.C18
